@@ -80,6 +80,9 @@ Theorem C17_directives_as_C_path :
 Proof. exact fortran_directives_as_C_path. Qed.
 Print Assumptions C17_directives_as_C_path.
 
+Definition lines_of (s : string) : list pline := split_lines [] (list_of_string s).
+Definition nl : string := String (ascii_of_nat 10) "".
+
 (* ... so that C01 applies verbatim: whatever DirectiveParser makes of the
    text of a # line ([recog], the same function for every language), the node
    sequence of a Fortran file is a C01 program, and when it is structured the
@@ -94,8 +97,6 @@ Theorem C17_C01_applies :
 Proof. exact fortran_program_as_C. Qed.
 Print Assumptions C17_C01_applies.
 
-Definition lines_of (s : string) : list pline := split_lines [] (list_of_string s).
-Definition nl : string := String (ascii_of_nat 10) "".
 
 (* Each guard of [wf] beyond Fortran's own rules is needed - without it the
    statement is false of the faithful model (closed witnesses):
@@ -105,6 +106,15 @@ Definition nl : string := String (ascii_of_nat 10) "".
        when the blanks are two or more (here: one before the &, one after);
    (3) a backslash is taken as a C escape, so 'a\' leaves the literal open and
        the whole file is rejected (RuntimeError). *)
+(* (4) a backslash-newline in Fortran text joins the physical lines before the
+       Fortran cleaner sees them, so the comment-only second line is counted *)
+Theorem C17_classification_refuted_code_splice :
+  exists ls, parse_fortran ls = Ok [(false, [1; 2])]%nat /\ S_lines ls = [(1, false)]%nat.
+Proof.
+  exists (lines_of ("x = 1 " ++ String (ascii_of_nat 92) "" ++ nl ++ "! c" ++ nl)). vm_compute. split; reflexivity.
+Qed.
+Print Assumptions C17_classification_refuted_code_splice.
+
 Theorem C17_classification_refuted_amp_hash :
   exists ls, parse_fortran ls = Ok [(true, [2]); (false, [3])]%nat /\ S_lines ls = [(2, false); (3, false)]%nat.
 Proof. exists (lines_of ("&" ++ nl ++ "&#if X" ++ nl ++ "a" ++ nl)). vm_compute. split; reflexivity. Qed.
